@@ -53,6 +53,10 @@ func TrimDomainName(s, origin string) string {
 	if s == "" {
 		return "@"
 	}
+	// Nothing to trim, just as AddOrigin(s, "") has nothing to append.
+	if origin == "" {
+		return s
+	}
 	// Someone is using TrimDomainName(s, ".") to remove a dot if it exists.
 	if origin == "." {
 		return strings.TrimSuffix(s, origin)
